@@ -12,7 +12,7 @@ from pbt.core import Result, silence, exc_sig
 
 ID = "C24"
 LEVEL = "exploration"
-EXAMPLES = {"quick": 4800, "thorough": 60000}
+EXAMPLES = {"quick": 3200, "thorough": 60000}
 SHRINK_S = {"quick": 8, "thorough": 30}
 RULE = ("Hypothesis draws one of 17 create pairs (bus, line, line_from_parameters, trafo, trafo_from_parameters, trafo3w, "
         "trafo3w_from_parameters, load, sgen, gen, storage, shunt, ward, switch, impedance, poly_cost, pwl_cost), a base net "
@@ -270,6 +270,8 @@ def classify(pair, kind, table, col, detail):
         return "rows/gen/vm-limit-defaults-not-filled"
     if table == "trafo3w" and pair in ("trafo3w", "trafo3w_fp") and col == "tag_x" and kind == "only-batch":
         return "rows/trafo3w/kwargs-column-dropped-by-single"
+    if pair == "trafo_fp" and table == "trafo" and col == "tap2_pos" and lost:
+        return "rows/trafo_fp/tap2_pos-not-defaulted-to-tap2_neutral"
     if pair == "ward" and kind == "index":
         return "rows/ward/index-taken-from-storage-table"
     return "rows/%s/%s:%s.%s" % (pair, kind, table, col)
